@@ -23,6 +23,16 @@ CONSTRUCTORS = {
     PA + '::new_unsafe': 'unsafe: caller contract',
     PA + '::zero': 'constant 0',
 }
+PG = 'structures::paging::page::Page'
+FR = 'structures::paging::frame::PhysFrame'
+# page / frame values: built by containing_address (C06 decides it) and by the unsafe unchecked constructor (its in-crate callers are
+# audited); anything else that assembles one must be shown to produce size-aligned start addresses
+PAGE_CONSTRUCTORS = {
+    PG + '::<S>::containing_address': 'align_down of a valid address (C06)',
+    PG + '::<S>::from_start_address_unchecked': 'unsafe: caller contract; in-crate call sites are audited',
+    FR + '::<S>::containing_address': 'align_down of a valid address (C06)',
+    FR + '::<S>::from_start_address_unchecked': 'unsafe: caller contract; in-crate call sites are audited',
+}
 # instructions whose result is an address by hardware fact (the FS/GS base registers only hold canonical addresses)
 HW_ADDRESS_INSNS = ('rdfsbase', 'rdgsbase')
 
@@ -52,10 +62,16 @@ def census(chk):
         if not is_user_fn(f):
             continue
         base = f['name'].split('::promoted')[0]
+        from ..mirwalk import ctor_refs
+        if ctor_refs(f, names | {PG, FR}) and f['name'] not in CONSTRUCTORS and f['name'] not in PAGE_CONSTRUCTORS:
+            to_audit.setdefault(f['name'], f)
         for bi, s in statements(f):
             if s['k'] != 'assign':
                 continue
             rv = s['rv']
+            if rv['k'] == 'agg' and rv.get('ak') == 'adt' and rv.get('adt') in (PG, FR):
+                if f['name'] not in PAGE_CONSTRUCTORS:
+                    to_audit.setdefault(f['name'], f)
             if rv['k'] == 'agg' and rv.get('ak') == 'adt' and rv.get('adt') in names:
                 n_agg += 1
                 if f['name'] in CONSTRUCTORS:
@@ -91,6 +107,8 @@ def census(chk):
             if target in (VA + '::new_unsafe', PA + '::new_unsafe'):
                 n_calls += 1
                 to_audit.setdefault(f['name'], f)
+            if target in (PG + '::<S>::from_start_address_unchecked', FR + '::<S>::from_start_address_unchecked') and f['name'] not in PAGE_CONSTRUCTORS:
+                to_audit.setdefault(f['name'], f)
     chk.floor('in-crate new_unsafe call sites', n_calls, 1)
     for name, f in sorted(to_audit.items()):
         chk.guard('who-may-construct', name, lambda f=f: audit(chk, f))
@@ -114,24 +132,68 @@ def audit(chk, f):
                 if target != name or not (c.get('res') or {}).get('gargs'):
                     continue
                 ga = gargs_for(f, c['res']['gargs'])
-                if len(ga) == len(f['generics']) and not any(x.get('k') == 'param' for x in ga) and ga not in insts:
+                if len(ga) == len(f['generics']) and any(x.get('k') not in ('param', 'lifetime') for x in ga) and ga not in insts:
                     insts.append(ga)
         if insts:
-            subs = [dict(zip(f['generics'], ga)) for ga in insts]
+            # arguments the call sites leave generic (a page size passed through) range over the three page sizes
+            subs = []
+            for ga in insts:
+                for sz in ('Size4KiB', 'Size2MiB', 'Size1GiB'):
+                    sb_ = dict(zip(f['generics'], [size_ty(sz) if x.get('k') == 'param' else x for x in ga]))
+                    if sb_ not in subs:
+                        subs.append(sb_)
         else:
             subs = [{g: size_ty(sz) for g in f['generics']} for sz in ('Size4KiB', 'Size2MiB', 'Size1GiB')]
     bad = []
     seen = 0
+
+    def tvisit(o, v, t, depth=0):
+        nonlocal seen
+        if v is None or t is None or depth > 6:
+            return
+        if isinstance(v, Ref):
+            try:
+                v = I.load(o.st, v)
+            except Exception:
+                return
+            t = t.get('to') or t
+        k = t.get('k')
+        if k == 'adt' and t.get('name') in (PG, FR) and isinstance(v, Struct):
+            sb = I.page_size_bits(t['args'][0]) if t.get('args') else None
+            try:
+                x = I.norm(o.st, inner(v))
+            except Exception:
+                return
+            if sb is not None and isinstance(x, BV):
+                seen += 1
+                if not all(b == 0 for b in x.bits[:sb]):
+                    bad.append('%s<%s> start %r is not size-aligned' % (t['name'].split('::')[-1], t['args'][0].get('name', '?').split('::')[-1], x))
+            return
+        if k == 'adt' and isinstance(v, Enum) and t.get('name') in ('core::option::Option', 'core::result::Result') and t.get('args'):
+            idx = 0 if v.vname in ('Some', 'Ok') else (1 if v.vname == 'Err' else None)
+            if idx is not None and idx < len(t['args']) and v.fields:
+                tvisit(o, v.fields[0], t['args'][idx], depth + 1)
+            return
+        if k == 'tuple' and isinstance(v, Struct):
+            for x, tx in zip(v.fields, t.get('elems', [])):
+                tvisit(o, x, tx, depth + 1)
+            return
+        if k == 'adt' and isinstance(v, Struct):
+            lay = I.find_layout(t)
+            if lay and 'fields' in lay and len(lay['fields']) == len(v.fields):
+                for x, fl in zip(v.fields, lay['fields']):
+                    tvisit(o, x, fl['ty'], depth + 1)
     import itertools
     from .common import declare
     from .c07 import half_va
     # a VirtAddr parameter is analysed per canonical half (the interval component then sees one contiguous range)
-    n_va = sum(1 for i in range(f['argc']) if (I.subst_ty(f['locals'][i + 1], {}).get('to') or I.subst_ty(f['locals'][i + 1], {})).get('name') == VA)
+    n_va = sum(1 for i in range(f['argc']) if (I.subst_ty(f['locals'][i + 1], {}).get('to') or I.subst_ty(f['locals'][i + 1], {})).get('name') in (VA, PG))
     cases = [(sub, halves) for sub in subs for halves in itertools.product(('lower', 'upper'), repeat=min(n_va, 2))]
     for sub, halves in cases:
         st = State()
         args = []
         refs = []
+        reflocs = []
         hv = list(halves)
         for i in range(f['argc']):
             t = I.subst_ty(f['locals'][i + 1], sub)
@@ -139,6 +201,10 @@ def audit(chk, f):
             if tt.get('name') == VA and hv:
                 bits, rg = half_va('arg%d' % i, hv.pop(0))
                 v = Struct(VA, [bits])
+                declare(st, v, {'arg%d' % i: rg})
+            elif tt.get('name') == PG and hv and tt.get('args') and I.page_size_bits(tt['args'][0]) is not None:
+                bits, rg = half_va('arg%d' % i, hv.pop(0), I.page_size_bits(tt['args'][0]))
+                v = I.newtype(PG, Struct(VA, [bits]))
                 declare(st, v, {'arg%d' % i: rg})
             else:
                 v = I.sym_value(tt, 'arg%d' % i, st)
@@ -148,8 +214,10 @@ def audit(chk, f):
                 st.mem[('arg', 'a%d' % i)] = v
                 args.append(Ref(('arg', 'a%d' % i)))
                 refs.append(('arg', 'a%d' % i))
+                reflocs.append(('arg', 'a%d' % i))
             else:
                 args.append(v)
+                reflocs.append(None)
         outs = I.run(name, args, st, sub)
         chk.count('function-instances')
         from .c07 import wrap_sites
@@ -192,7 +260,14 @@ def audit(chk, f):
             visit(o.val)
             for loc in refs:
                 visit(o.st.mem.get(loc))
-    chk.ob('who-may-construct', '%s assembles an address outside the public constructors: every address it produces is valid for all inputs' % short,
+            # pages and frames: the start address has the low log2(SIZE) bits clear (the size is read off the function's types)
+            rt = I.subst_ty(f['locals'][0], sub)
+            tvisit(o, o.val, rt)
+            for i, loc in enumerate(reflocs):
+                if loc is not None:
+                    tt = I.subst_ty(f['locals'][i + 1], sub)
+                    tvisit(o, o.st.mem.get(loc), tt.get('to') or tt)
+    chk.ob('who-may-construct', '%s assembles an address / page / frame outside the public constructors: every one it produces is valid (and size-aligned) for all inputs' % short,
            seen > 0 and not bad, '; '.join(sorted(set(bad))[:3]) or 'no address value could be examined', f['loc'])
 
 
